@@ -479,10 +479,12 @@ impl ZonedDateTime {
             .calendar
             .date_from_partial(&partial.date, overflow)?
             .iso;
+        // A property bag without time fields denotes midnight
+        // (InterpretTemporalDateTimeFields), not the start of the day.
         let time = if !partial.time.is_empty() {
-            Some(IsoTime::default().with(partial.time, overflow)?)
+            IsoTime::default().with(partial.time, overflow)?
         } else {
-            None
+            IsoTime::default()
         };
 
         // Handle time zones
@@ -494,7 +496,7 @@ impl ZonedDateTime {
 
         let epoch_nanos = interpret_isodatetime_offset(
             date,
-            time,
+            Some(time),
             false,
             offset_nanos,
             &timezone,
